@@ -3,6 +3,7 @@ from __future__ import annotations
 
 import copy
 import dataclasses
+import json
 
 from vmc import core, e1, family, formats, hist, ref, space
 
@@ -25,7 +26,7 @@ def bounds(tier):
     return dict(tier=tier, schemas=len(_schemas(tier)), variants=["plain", "mixin"],
                 encode_paths=["mixin.to_dict", "BasicEncoder(D)", "encode(x, D)", "List[D]", "Dict[str, D]", "Tuple[D, int]", "Optional[D]",
                               "Outer.f", "json", "yaml", "msgpack", "orjson"],
-                history_depth=4 if tier == "quick" else 5)
+                history_depth=3 if tier == "quick" else 4)
 
 
 def _schemas(tier):
@@ -36,7 +37,7 @@ def _schemas(tier):
 def units(tier):
     out = [("rel", d, variant) for d in _schemas(tier) for variant in ("plain", "mixin")]
     for variant in ("plain", "mixin", "lazy"):
-        out.append(("hist", variant, 4 if tier == "quick" else 5))
+        out.append(("hist", variant, 3 if tier == "quick" else 4))
     return out
 
 
@@ -214,6 +215,9 @@ class HModel:
         self._exp = {}
         self.ops = [("create", s) for s in self.SHAPES] + [("subclass",)] + \
                    [("encode", s) for s in self.SHAPES] + [("decode", s) for s in self.SHAPES] + [("new+encode", "D"), ("new+decode", "ListD")]
+        # the same with a codec default_dialect: codecs with different dialects must not influence each other
+        self.ops += [("create", "D", "D1"), ("create", "ListD", "D1"), ("encode", "D", "D1"), ("decode", "D", "D1"),
+                     ("new+encode", "ListD", "D1"), ("new+decode", "D", "D1")]
         if variant != "plain":
             self.ops += [("to_dict",), ("from_dict",)]
         self.ops += [("outer_to_dict",), ("outer_from_dict",)]
@@ -241,9 +245,11 @@ class HModel:
         from mashumaro.codecs.basic import BasicDecoder, BasicEncoder
         ns = f.ctx.ns
         try:
+            dl = family.dialects()[op[2]] if len(op) > 2 else None
+            ckey = op[1] if len(op) > 1 and len(op) <= 2 else (op[1] + "/" + op[2] if len(op) > 2 else None)
             if op[0] == "create":
                 sh = f.shape(op[1])
-                f.codecs.setdefault(op[1], []).append((BasicEncoder(sh), BasicDecoder(sh)))
+                f.codecs.setdefault(ckey, []).append((BasicEncoder(sh, default_dialect=dl), BasicDecoder(sh, default_dialect=dl)))
                 return ("ok", "created")
             if op[0] == "subclass":
                 if not f.sub:
@@ -252,14 +258,17 @@ class HModel:
                 return ("ok", "defined")
             if op[0] in ("encode", "decode", "new+encode", "new+decode"):
                 shape = op[1]
-                if op[0].startswith("new+") or not f.codecs.get(shape):
+                if op[0].startswith("new+") or not f.codecs.get(ckey):
                     sh = f.shape(shape)
-                    pair = (BasicEncoder(sh), BasicDecoder(sh))
+                    pair = (BasicEncoder(sh, default_dialect=dl), BasicDecoder(sh, default_dialect=dl))
                 else:
-                    pair = f.codecs[shape][0]      # the OLDEST codec: it must keep working
+                    pair = f.codecs[ckey][0]      # the OLDEST codec: it must keep working
                 if op[0].endswith("encode"):
                     return ("ok", family.normalise(pair[0].encode(self._wrap(f, shape, f.value()))))
-                return ("ok", family.normalise(pair[1].decode(self._wire(shape))))
+                wire = self._wire(shape)
+                if dl is not None:
+                    wire = json.loads(json.dumps(wire).replace("2021-03-04", "2021/03/04").replace("2020-01-02", "2020/01/02"))
+                return ("ok", family.normalise(pair[1].decode(wire)))
             if op[0] == "to_dict":
                 return ("ok", family.normalise(f.value().to_dict()))
             if op[0] == "from_dict":
